@@ -153,7 +153,8 @@ claim('C11', 'DESIGN.md 4/C11',
       '(ClosedFormEqualsPairSum, WeightFormEqualsPairSum, TermsAgreeWithDefinitions, RingSum, LimitAtOne, LimitAtZero, Bounded, '
       'PairCount, KoyamaValidity); the exported weight-form terms evaluated for the real N (up to 10^4) and k and the model-object '
       'machine (Construct / Calculate on grid families, Koyama parameter cases) replayed on the real classes; exact points against '
-      'TLC rationals',
+      'TLC rationals; PairCountInd.tla (Apalache, symbolic N): the total weight of the defining sum is N^2 for every chain length; '
+      'dimensional analysis of the definitions (LenDeg) bound by evaluating every model in other units of length',
       'The definitions and their equivalence are TLC-checked statements; every shipped model class is compared with the exported '
       'pair-sum term on Domain grids and 1e-4..1e3, with limits, bound, finiteness, independence of the other k and parameter rejection.',
       'Tolerance 1e-8 relative (1e-10 at exact points); Koyama / NFJC weights are the models own kernels (structure, limits, bound, '
